@@ -104,8 +104,8 @@ class Kernel:
     # ---- scheduling point ---------------------------------------------------------------------------
     def point(self, where):
         """The environment may act here (cost 1 per early event)."""
-        if not self.in_request:
-            return
+        if not self.in_request or getattr(self.env, "delivering", 0):
+            return  # no scheduling point outside requests, nor while an environment event is itself being carried out
         while True:
             opts = self.env.enabled_early()
             if not opts:
